@@ -77,5 +77,17 @@ def utpm2dirs (u : NdArray K) : NdArray K :=
   ofFn (s ++ [utP u, utD u]) fun i =>
     u.get (i.getD (s.length + 1) 0 :: i.getD s.length 0 :: i.take s.length)
 
+/-- `UTPM.as_utpm` / `utils.ndarray2utpm` on a container of shape `outer` whose `n = Π outer` elements are polynomials with the
+same coefficient shape `(D, P) + e`, given stacked as one array `X` of shape `(n, D, P) + e` (row-major order of the container):
+the result has shape `(D, P) + outer + e` and `out[d, p, o…, e…] = X[ravel o, d, p, e…]` -/
+def containerToUtpm (outer : List Nat) (X : NdArray K) : NdArray K :=
+  let D := X.shape.getD 1 0
+  let P := X.shape.getD 2 0
+  let e := X.shape.drop 3
+  ofFn (D :: P :: (outer ++ e)) fun i =>
+    match i with
+    | d :: p :: rest => X.get (ravel outer (rest.take outer.length) :: d :: p :: rest.drop outer.length)
+    | _ => 0
+
 end
 end AV
